@@ -114,8 +114,7 @@ def run_harness(ctx, scenarios, label, shards=None, race=False, timeout=900):
     return merged, racelog
 
 
-def judge(ctx, scenarios, tracefile, props, label='cli'):
-    n = sum(1 for _ in open(tracefile))
+def _validate(ctx, tracefile):
     r = ctx.validate('H2ClientTrace', tracefile)
     bad = {}
     for s in r.printed('BAD'):
@@ -125,11 +124,21 @@ def judge(ctx, scenarios, tracefile, props, label='cli'):
                 bad[int(m.group(1))] = json.loads(m.group(2))
             except Exception:
                 bad[int(m.group(1))] = [m.group(2)]
+    return bad
+
+
+def judge(ctx, scenarios, tracefile, props, label='cli', confirm=True):
+    n = sum(1 for _ in open(tracefile))
+    bad = _validate(ctx, tracefile)
     ctx.traces += n
     ctx.evaluations += n
     byid = {s['id']: s for s in scenarios}
-    others, percls = {}, {}
+    others, percls, conf = {}, {}, {}
     ctx.extra.setdefault('rejected_by_clause', {})
+
+    def rerun(scs, lab):
+        tr, _ = run_harness(ctx, scs, lab, shards=1)
+        return _validate(ctx, tr)
     for t, clauses in sorted(bad.items()):
         for c in clauses:
             p = c.split(':', 1)[0]
@@ -139,10 +148,14 @@ def judge(ctx, scenarios, tracefile, props, label='cli'):
             if p in props or any(c.startswith(x) for x in props if ':' in x):
                 cls = c.split(' ')[0]
                 percls[c] = percls.get(c, 0) + 1
-                ctx.extra['rejected_by_clause'][c] = percls[c]
                 if percls[c] <= 2:
-                    ctx.report(cls, '%s: %s' % (label, c), {'kind': 'cli', 'clause': c, 'scenario': byid.get(t)})
-                elif cls not in getattr(ctx, '_known', {}):
+                    ok = (not confirm) or cls in getattr(ctx, '_known', {}) or srvfam.confirmed(ctx, byid.get(t), c, rerun)
+                    conf[c] = conf.get(c, False) or ok
+                    if ok:
+                        ctx.extra['rejected_by_clause'][c] = ctx.extra['rejected_by_clause'].get(c, 0) + 1
+                        ctx.report(cls, '%s: %s' % (label, c), {'kind': 'cli', 'clause': c, 'scenario': byid.get(t)})
+                elif conf.get(c) and cls not in getattr(ctx, '_known', {}):
+                    ctx.extra['rejected_by_clause'][c] = ctx.extra['rejected_by_clause'].get(c, 0) + 1
                     ctx.violations.append((c, '(see first two of this clause)'))
             else:
                 others[c.split(' ')[0]] = others.get(c.split(' ')[0], 0) + 1
@@ -567,4 +580,4 @@ def replay(ctx, pid, finding):
     sc = dict(finding['scenario']); sc['id'] = 1
     _, _, props = build.__wrapped__(ctx, pid) if hasattr(build, '__wrapped__') else (None, None, (FAM[pid]['props'] if pid in FAM else EXTRA_ONLY[pid][1]))
     tr, _ = run_harness(ctx, [sc], 'replay', shards=1)
-    judge(ctx, [sc], tr, props)
+    judge(ctx, [sc], tr, props, confirm=False)
